@@ -733,7 +733,8 @@ class EvolvableAlgorithm(ABC, metaclass=RegistryMeta):
                 optimizer_kwargs=opt_config.optimizer_kwargs,
                 multiagent=opt_config.multiagent,
             )
-            opt.load_state_dict(orig_optimizer.state_dict())
+            # NOTE: torch keeps references to the tensors of the state dict it loads
+            opt.load_state_dict(copy.deepcopy(orig_optimizer.state_dict()))
             setattr(clone, opt_config.name, opt)
 
         # Prepare with accelerator / compiler if necessary
